@@ -57,7 +57,8 @@ Record Rel (cs : cstate) (G : ost) : Prop := mkRel {
   r_own_reg : forall s, In s (o_own G) -> In s (reg cs);
   r_reg : forall s, In s (reg cs) -> In s (o_own G) \/ In s (o_dead G);
   r_vars : forall s, In s (vslots cs) -> In s (o_own G);
-  r_env : forall x p, lookup (c_env cs) x = Some p -> In (root p) (vslots cs)
+  r_env : forall x p, lookup (c_env cs) x = Some p -> In (root p) (vslots cs);
+  r_dead_lt : forall s, In s (o_dead G) -> s < c_next cs
 }.
 
 Lemma vslots_reg : forall cs s, In s (vslots cs) -> In s (reg cs).
@@ -106,117 +107,350 @@ Proof.
     + intro Hs. apply S2, S1, Hs.
 Qed.
 
-Definition ext (cs cs' : cstate) (T : list nat) : Prop :=
+Lemma oc_iseq_cons : forall K c l G, own_check K (iseq (c :: l)) G =
+  match own_check K c G with Some (Some G1) => own_check K (iseq l) G1 | r => r end.
+Proof.
+  intros K c l G. destruct l as [|j l].
+  - cbn [iseq]. destruct (own_check K c G) as [[G1|]|]; reflexivity.
+  - rewrite iseq_cons2, oc_seq. reflexivity.
+Qed.
+Lemma oc_iseq_app : forall K l1 l2 G G1, own_check K (iseq l1) G = Some (Some G1) ->
+  own_check K (iseq (l1 ++ l2)) G = own_check K (iseq l2) G1.
+Proof.
+  intros K l1. induction l1 as [|c l1 IH]; intros l2 G G1 H.
+  - cbn in H. inversion H; subst. reflexivity.
+  - cbn [app]. rewrite oc_iseq_cons in *. destruct (own_check K c G) as [[G0|]|]; try discriminate H. apply IH. exact H.
+Qed.
+
+(* cs' is cs with new variables V and new temporaries T registered in the head scope *)
+Definition ext (cs cs' : cstate) (V T : list nat) : Prop :=
   exists h tlsc, c_scopes cs = h :: tlsc /\
-    c_scopes cs' = mkScope (sc_vars h) (sc_temps h ++ map (fun s => mkTmp s false) T) :: tlsc /\
-    c_env cs' = c_env cs /\ c_loop cs' = c_loop cs /\ c_fun cs' = c_fun cs /\ c_next cs <= c_next cs' /\
-    (forall s, In s T -> c_next cs <= s < c_next cs').
+    c_scopes cs' = mkScope (sc_vars h ++ map (fun s => mkVar s false) V) (sc_temps h ++ map (fun s => mkTmp s false) T) :: tlsc /\
+    c_loop cs' = c_loop cs /\ c_fun cs' = c_fun cs /\ c_next cs <= c_next cs' /\
+    (forall s, In s (V ++ T) -> c_next cs <= s < c_next cs').
 
-Lemma ext_refl : forall cs, c_scopes cs <> [] -> ext cs cs [].
+Lemma ext_refl : forall cs, c_scopes cs <> [] -> ext cs cs [] [].
 Proof.
-  intros cs H. destruct (c_scopes cs) as [|h t] eqn:E; [congruence|]. exists h, t. cbn [map]. rewrite app_nil_r.
+  intros cs H. destruct (c_scopes cs) as [|h t] eqn:E; [congruence|]. exists h, t. cbn [map]. rewrite !app_nil_r.
   destruct h as [v tm]. cbn [sc_vars sc_temps].
-  split; [exact E|]. split; [exact E|]. split; [reflexivity|]. split; [reflexivity|]. split; [reflexivity|].
-  split; [lia|]. intros s [].
+  split; [exact E|]. split; [exact E|]. split; [reflexivity|]. split; [reflexivity|]. split; [lia|]. intros s [].
 Qed.
 
-Lemma ext_trans : forall a b c T1 T2, ext a b T1 -> ext b c T2 -> ext a c (T1 ++ T2).
+Lemma ext_trans : forall a b c V1 T1 V2 T2, ext a b V1 T1 -> ext b c V2 T2 -> ext a c (V1 ++ V2) (T1 ++ T2).
 Proof.
-  intros a b c T1 T2 [h [t [E1 [E2 [E3 [E4 [E5 [E6 E7]]]]]]]] [h' [t' [F1 [F2 [F3 [F4 [F5 [F6 F7]]]]]]]].
+  intros a b c V1 T1 V2 T2 [h [t [E1 [E2 [E4 [E5 [E6 E7]]]]]]] [h' [t' [F1 [F2 [F4 [F5 [F6 F7]]]]]]].
   rewrite E2 in F1. inversion F1; subst h' t'. exists h, t. cbn [sc_vars sc_temps] in F2.
-  rewrite map_app, app_assoc.
-  split; [exact E1|]. split; [rewrite F2; reflexivity|]. split; [congruence|]. split; [congruence|]. split; [congruence|].
-  split; [lia|]. intros s Hs. apply in_app_or in Hs. destruct Hs as [Hs|Hs]; [apply E7 in Hs | apply F7 in Hs]; lia.
+  split; [exact E1|]. split; [rewrite F2, !map_app, !app_assoc; reflexivity|]. split; [congruence|]. split; [congruence|].
+  split; [lia|]. intros s Hs. rewrite !in_app_iff in Hs.
+  assert (H1 : In s (V1 ++ T1) \/ In s (V2 ++ T2)) by (rewrite !in_app_iff; tauto).
+  destruct H1 as [H1|H1]; [apply E7 in H1 | apply F7 in H1]; lia.
 Qed.
 
-Lemma ext_reg : forall cs cs' T, ext cs cs' T -> forall s, In s (reg cs') <-> In s (reg cs) \/ In s T.
+Lemma ext_reg : forall cs cs' V T, ext cs cs' V T -> forall s, In s (reg cs') <-> In s (reg cs) \/ In s V \/ In s T.
 Proof.
-  intros cs cs' T [h [t [E1 [E2 _]]]] s. unfold reg. rewrite E1, E2. cbn [flat_map]. unfold scope_slots at 1 3. cbn [sc_vars sc_temps].
-  rewrite !in_app_iff, map_app, in_app_iff, map_map. cbn [t_slot]. rewrite map_id. tauto.
+  intros cs cs' V T [h [t [E1 [E2 _]]]] s. unfold reg. rewrite E1, E2. cbn [flat_map]. unfold scope_slots at 1 3. cbn [sc_vars sc_temps].
+  rewrite !in_app_iff, !map_app, !in_app_iff, !map_map. cbn [t_slot v_slot]. rewrite !map_id. tauto.
 Qed.
-Lemma ext_vslots : forall cs cs' T, ext cs cs' T -> vslots cs' = vslots cs.
-Proof. intros cs cs' T [h [t [E1 [E2 _]]]]. unfold vslots. rewrite E1, E2. reflexivity. Qed.
+Lemma ext_vslots : forall cs cs' V T, ext cs cs' V T -> forall s, In s (vslots cs') <-> In s (vslots cs) \/ In s V.
+Proof.
+  intros cs cs' V T [h [t [E1 [E2 _]]]] s. unfold vslots. rewrite E1, E2. cbn [flat_map sc_vars].
+  rewrite !in_app_iff, map_app, in_app_iff, map_map. cbn [v_slot]. rewrite map_id. tauto.
+Qed.
+Lemma ext_ne : forall cs cs' V T, ext cs cs' V T -> c_scopes cs' <> [].
+Proof. intros cs cs' V T [h [t [_ [E _]]]]. rewrite E. discriminate. Qed.
+Lemma ext_next : forall cs cs' V T, ext cs cs' V T -> c_next cs <= c_next cs'.
+Proof. intros cs cs' V T [h [t [_ [_ [_ [_ [E _]]]]]]]. exact E. Qed.
+Lemma ext_fresh : forall cs cs' V T, ext cs cs' V T -> forall s, In s V \/ In s T -> c_next cs <= s < c_next cs'.
+Proof. intros cs cs' V T [h [t [_ [_ [_ [_ [_ E]]]]]]] s Hs. apply E. apply in_or_app. exact Hs. Qed.
 
-(* re-establishing Rel after the head scope got new temporaries *)
-Lemma Rel_ext : forall cs G cs' T G', Rel cs G -> ext cs cs' T -> NoDup T ->
+(* re-establishing Rel after the head scope got new variables and temporaries *)
+Lemma Rel_ext : forall cs G cs' V T G', Rel cs G -> ext cs cs' V T -> NoDup (V ++ T) ->
   sorted (o_own G') ->
-  (forall s, In s (o_own G') -> In s (reg cs) \/ In s T) ->
-  (forall s, In s (reg cs) \/ In s T -> In s (o_own G') \/ In s (o_dead G')) ->
-  (forall s, In s (vslots cs) -> In s (o_own G')) ->
+  (forall s, In s (o_own G') -> In s (reg cs) \/ In s V \/ In s T) ->
+  (forall s, In s (reg cs) \/ In s V \/ In s T -> In s (o_own G') \/ In s (o_dead G')) ->
+  (forall s, In s (vslots cs) \/ In s V -> In s (o_own G')) ->
+  (forall s, In s (o_dead G') -> s < c_next cs') ->
+  (forall x p, lookup (c_env cs') x = Some p -> In (root p) (vslots cs) \/ In (root p) V) ->
   Rel cs' G'.
 Proof.
-  intros cs G cs' T G' R E NT HS H1 H2 H3. pose proof E as [h [t [E1 [E2 [E3 [E4 [E5 [E6 E7]]]]]]]].
+  intros cs G cs' V T G' R E NT HS H1 H2 H3 H4 H5. pose proof E as [h [t [E1 [E2 [E4 [E5 [E6 E7]]]]]]].
   constructor.
   - rewrite E2. discriminate.
   - intros sc Hsc. rewrite E2 in Hsc. destruct Hsc as [Hsc|Hsc].
     + subst sc. assert (Hh : noprot_sc h) by (apply (r_np _ _ R); rewrite E1; left; reflexivity).
-      destruct Hh as [Hv Ht]. split; cbn [sc_vars sc_temps]; [exact Hv|]. intros x Hx. apply in_app_or in Hx.
-      destruct Hx as [Hx|Hx]; [apply Ht; exact Hx|]. apply in_map_iff in Hx. destruct Hx as [s [Hs _]]. subst x. reflexivity.
+      destruct Hh as [Hv Ht]. split; cbn [sc_vars sc_temps]; intros x Hx; apply in_app_or in Hx; destruct Hx as [Hx|Hx].
+      * apply Hv; exact Hx.
+      * apply in_map_iff in Hx. destruct Hx as [s [Hs _]]. subst x. reflexivity.
+      * apply Ht; exact Hx.
+      * apply in_map_iff in Hx. destruct Hx as [s [Hs _]]. subst x. reflexivity.
     + apply (r_np _ _ R). rewrite E1. right. exact Hsc.
   - pose proof (r_nd _ _ R) as N. unfold reg in *. rewrite E1 in N. rewrite E2. cbn [flat_map] in *.
-    unfold scope_slots at 1. unfold scope_slots at 1 in N. cbn [sc_vars sc_temps]. rewrite map_app, map_map. cbn [t_slot]. rewrite map_id.
-    set (V := map v_slot (sc_vars h)) in *. set (Tm := map t_slot (sc_temps h)) in *. set (Rs := flat_map scope_slots t) in *.
-    assert (Hfresh : forall s, In s T -> ~ In s ((V ++ Tm) ++ Rs)).
+    unfold scope_slots at 1. unfold scope_slots at 1 in N. cbn [sc_vars sc_temps]. rewrite !map_app, !map_map. cbn [t_slot v_slot]. rewrite !map_id.
+    set (Vh := map v_slot (sc_vars h)) in *. set (Tm := map t_slot (sc_temps h)) in *. set (Rs := flat_map scope_slots t) in *.
+    assert (Hfresh : forall s, In s (V ++ T) -> ~ In s ((Vh ++ Tm) ++ Rs)).
     { intros s Hs Hin. assert (Hr : In s (reg cs)) by (unfold reg; rewrite E1; cbn [flat_map]; unfold scope_slots at 1; exact Hin).
       apply (r_lt _ _ R) in Hr. apply E7 in Hs. lia. }
-    apply (Permutation_NoDup (l := T ++ (V ++ Tm) ++ Rs)).
-    + rewrite <- !app_assoc. eapply Permutation_trans; [apply Permutation_app_comm|]. rewrite <- !app_assoc.
-      apply Permutation_app_head. apply Permutation_app_head. apply Permutation_app_comm.
+    apply (Permutation_NoDup (l := (V ++ T) ++ (Vh ++ Tm) ++ Rs)).
+    + rewrite (app_assoc (V ++ T)). apply Permutation_app_tail.
+      eapply Permutation_trans; [apply Permutation_app_comm|]. rewrite <- !app_assoc. apply Permutation_app_head.
+      rewrite !app_assoc. apply Permutation_app_tail. apply Permutation_app_comm.
     + apply NoDup_app_intro; [exact NT | exact N|]. intros x Hx1 Hx2. exact (Hfresh x Hx1 Hx2).
-  - intros s Hs. apply (ext_reg _ _ _ E) in Hs. destruct Hs as [Hs|Hs]; [apply (r_lt _ _ R) in Hs; lia | apply E7 in Hs; lia].
+  - intros s Hs. apply (ext_reg _ _ _ _ E) in Hs. destruct Hs as [Hs|Hs]; [apply (r_lt _ _ R) in Hs; lia|].
+    assert (In s (V ++ T)) by (apply in_or_app; exact Hs). apply E7 in H. lia.
   - exact HS.
-  - intros s Hs. apply (ext_reg _ _ _ E). apply H1. exact Hs.
-  - intros s Hs. apply H2. apply (ext_reg _ _ _ E). exact Hs.
-  - rewrite (ext_vslots _ _ _ E). exact H3.
-  - rewrite E3, (ext_vslots _ _ _ E). apply (r_env _ _ R).
+  - intros s Hs. apply (ext_reg _ _ _ _ E). apply H1. exact Hs.
+  - intros s Hs. apply H2. apply (ext_reg _ _ _ _ E). exact Hs.
+  - intros s Hs. apply H3. apply (ext_vslots _ _ _ _ E). exact Hs.
+  - intros x p Hl. apply (ext_vslots _ _ _ _ E). apply H5 with x. exact Hl.
+  - exact H4.
 Qed.
 
 Lemma Rel_fresh_notin : forall cs G d, Rel cs G -> c_next cs <= d -> ~ In d (o_own G).
 Proof. intros cs G d R H Hin. apply (r_own_reg _ _ R) in Hin. apply (r_lt _ _ R) in Hin. lia. Qed.
+Lemma Rel_fresh_notdead : forall cs G d, Rel cs G -> c_next cs <= d -> ~ In d (o_dead G).
+Proof. intros cs G d R H Hin. apply (r_dead_lt _ _ R) in Hin. lia. Qed.
 
-Lemma ext_one : forall cs, c_scopes cs <> [] -> ext cs (add_temp (c_next cs) false (snd (fresh cs))) [c_next cs].
+Lemma ext_one : forall cs, c_scopes cs <> [] -> ext cs (add_temp (c_next cs) false (snd (fresh cs))) [] [c_next cs].
 Proof.
   intros cs H. destruct (c_scopes cs) as [|h t] eqn:E; [congruence|]. exists h, t.
   unfold add_temp, map_head, fresh, with_scopes. cbn [snd c_scopes c_next c_env c_loop c_fun]. rewrite E.
-  cbn [c_scopes c_next c_env c_loop c_fun map].
-  split; [reflexivity|]. split; [reflexivity|]. split; [reflexivity|]. split; [reflexivity|]. split; [reflexivity|].
+  cbn [c_scopes c_next c_env c_loop c_fun map]. rewrite app_nil_r. destruct h as [v tm]. cbn [sc_vars sc_temps].
+  split; [reflexivity|]. split; [reflexivity|]. split; [reflexivity|]. split; [reflexivity|].
   split; [lia|]. intros s [Hs|[]]. lia.
 Qed.
-
 Lemma ext_two : forall cs, c_scopes cs <> [] ->
-  ext cs (add_temp (S (c_next cs)) false (snd (fresh (snd (fresh cs))))) [S (c_next cs)].
+  ext cs (add_temp (S (c_next cs)) false (snd (fresh (snd (fresh cs))))) [] [S (c_next cs)].
 Proof.
   intros cs H. destruct (c_scopes cs) as [|h t] eqn:E; [congruence|]. exists h, t.
   unfold add_temp, map_head, fresh, with_scopes. cbn [snd c_scopes c_next c_env c_loop c_fun]. rewrite E.
-  cbn [c_scopes c_next c_env c_loop c_fun map].
-  split; [reflexivity|]. split; [reflexivity|]. split; [reflexivity|]. split; [reflexivity|]. split; [reflexivity|].
+  cbn [c_scopes c_next c_env c_loop c_fun map]. rewrite app_nil_r. destruct h as [v tm]. cbn [sc_vars sc_temps].
+  split; [reflexivity|]. split; [reflexivity|]. split; [reflexivity|]. split; [reflexivity|].
   split; [lia|]. intros s [Hs|[]]. lia.
 Qed.
 
-Lemma ext_ne : forall cs cs' T, ext cs cs' T -> c_scopes cs' <> [].
-Proof. intros cs cs' T [h [t [_ [E _]]]]. rewrite E. discriminate. Qed.
+Lemma reg_push : forall cs, reg (push_scope cs) = reg cs.
+Proof. intro cs. reflexivity. Qed.
+Lemma vslots_push : forall cs, vslots (push_scope cs) = vslots cs.
+Proof. intro cs. reflexivity. Qed.
 
-(* ------------------------------------------------------------------ the lemma that is still missing
-   With the relation above the open compile-level statement is
+Lemma Rel_push : forall cs G, Rel cs G -> Rel (push_scope cs) G.
+Proof.
+  intros cs G R. constructor; try (rewrite ?reg_push, ?vslots_push; apply R).
+  - discriminate.
+  - intros sc [Hsc|Hsc]; [subst sc; split; intros ? [] | apply (r_np _ _ R); exact Hsc].
+Qed.
 
-     compile_ok : forall P, compile P = Some code -> (skeleton P well-kinded: every function body returns on every
-                  path when f_ret, Referenz arguments are variables) -> program_ok P = true
+(* leaving the head scope: its variables and temporaries are freed *)
+Lemma scope_exit : forall K cs2 G2 h tlsc csp, Rel cs2 G2 -> c_scopes cs2 = h :: tlsc -> tlsc <> [] ->
+  c_scopes csp = tlsc -> c_next csp = c_next cs2 ->
+  (forall x p, lookup (c_env csp) x = Some p -> In (root p) (vslots csp)) ->
+  exists G3, own_check K (iseq (exit_frees false h)) G2 = Some (Some G3) /\ o_dead G3 = o_dead G2 /\
+    (forall s, In s (o_own G3) <-> In s (o_own G2) /\ ~ In s (scope_slots h)) /\ Rel csp G3.
+Proof.
+  intros K cs2 G2 h tlsc csp R E Hne Ep En Henv.
+  assert (Hreg : reg cs2 = scope_slots h ++ reg csp) by (unfold reg; rewrite E, Ep; reflexivity).
+  assert (Hnp : noprot_sc h) by (apply (r_np _ _ R); rewrite E; left; reflexivity).
+  rewrite (exit_frees_noprot h Hnp).
+  pose proof (r_nd _ _ R) as N. rewrite Hreg in N.
+  destruct (check_frees K (scope_slots h) G2 (NoDup_app_l _ _ _ N)) as [G3 [C1 [C2 [C3 C4]]]].
+  { intros s Hs. apply (r_reg _ _ R). rewrite Hreg. apply in_or_app. left. exact Hs. }
+  exists G3. split; [exact C1|]. split; [exact C2|]. split; [exact C3|].
+  assert (Hdisj : forall s, In s (scope_slots h) -> In s (reg csp) -> False).
+  { intros s H1 H2. clear - N H1 H2. induction (scope_slots h) as [|x l IH]; [destruct H1|].
+    cbn [app] in N. inversion N as [|? ? Hn Hd]; subst. destruct H1 as [H1|H1].
+    - subst x. apply Hn. apply in_or_app. right. exact H2.
+    - apply IH; assumption. }
+  constructor.
+  - rewrite Ep. exact Hne.
+  - intros sc Hsc. apply (r_np _ _ R). rewrite E. right. rewrite <- Ep. exact Hsc.
+  - eapply NoDup_app_r. exact N.
+  - intros s Hs. rewrite En. apply (r_lt _ _ R). rewrite Hreg. apply in_or_app. right. exact Hs.
+  - apply C4, (r_sorted _ _ R).
+  - intros s Hs. apply C3 in Hs. destruct Hs as [Hs Hn]. apply (r_own_reg _ _ R) in Hs. rewrite Hreg in Hs.
+    apply in_app_or in Hs. destruct Hs as [Hs|Hs]; [contradiction | exact Hs].
+  - intros s Hs. rewrite C2. destruct (r_reg _ _ R s) as [Ho|Ho]; [rewrite Hreg; apply in_or_app; right; exact Hs| |right; exact Ho].
+    left. apply C3. split; [exact Ho|]. intro Hh. exact (Hdisj s Hh Hs).
+  - intros s Hs. apply C3. split.
+    + apply (r_vars _ _ R). unfold vslots in *. rewrite E. cbn [flat_map]. apply in_or_app. right. rewrite <- Ep. exact Hs.
+    + intro Hh. apply (Hdisj s Hh). apply vslots_reg. exact Hs.
+  - exact Henv.
+  - intros s Hs. rewrite C2 in Hs. rewrite En. apply (r_dead_lt _ _ R). exact Hs.
+Qed.
 
-   whose induction needs, for expressions (cexpr / cbuild / cargs / cextargs, mutually) and statements (cstmt, with the
-   inlining depth of inline_d as outer induction):
+Lemma Rel_dead_weaken : forall cs G D, Rel cs G ->
+  (forall s, In s D -> In s (o_dead G)) -> (forall s, In s (reg cs) -> In s (o_own G) \/ In s D) -> Rel cs (mkO (o_own G) D).
+Proof.
+  intros cs G D R H1 H2. destruct R. constructor; cbn [o_own o_dead]; try assumption.
+  intros s Hs. apply r_dead_lt0. apply H1. exact Hs.
+Qed.
 
-     cexpr_ok : cexpr inl sg e cs = Some (code, r, cs') -> Rel cs G ->
-       exists G' T, own_check K code G = Some (Some G') /\ Rel cs' G' /\ ext cs cs' T /\ NoDup T /\
-         (forall s, In s (reg cs) -> In s (o_own G) -> In s (o_own G')) /\           (* older owners are untouched *)
-         (forall s, In s (o_own G') -> In s (o_own G) \/ In s T) /\                 (* only registered temporaries are new owners *)
-         match r with RTemp s => In s T /\ In s (o_own G') | RRef p => In (root p) (vslots cs) | RPrim => True end
+(* claiming a temporary that was registered since cs *)
+Lemma remove_tmp_notin : forall s l, ~ In s (map t_slot l) -> remove_tmp s l = None.
+Proof.
+  induction l as [|t l IH]; intro H; [reflexivity|]. cbn [remove_tmp]. cbn [map] in H.
+  destruct (Nat.eqb_spec (t_slot t) s) as [E|E]; [exfalso; apply H; left; exact E|].
+  rewrite IH; [reflexivity|]. intro Hin. apply H. right. exact Hin.
+Qed.
+Lemma remove_tmp_app_r : forall s l1 l2, ~ In s (map t_slot l1) ->
+  remove_tmp s (l1 ++ l2) = match remove_tmp s l2 with Some r => Some (l1 ++ r) | None => None end.
+Proof.
+  induction l1 as [|t l1 IH]; intros l2 H; cbn [app].
+  - destruct (remove_tmp s l2); reflexivity.
+  - cbn [remove_tmp]. cbn [map] in H. destruct (Nat.eqb_spec (t_slot t) s) as [E|E]; [exfalso; apply H; left; exact E|].
+    rewrite IH; [|intro Hin; apply H; right; exact Hin]. destruct (remove_tmp s l2); reflexivity.
+Qed.
+Lemma remove_tmp_new : forall s T, NoDup T -> In s T ->
+  remove_tmp s (map (fun x => mkTmp x false) T) = Some (map (fun x => mkTmp x false) (del s T)).
+Proof.
+  induction T as [|x T IH]; intros N H; [destruct H|]. inversion N as [|? ? Hn Hd]; subst. cbn [map remove_tmp t_slot].
+  unfold del. cbn [filter]. destruct (Nat.eqb_spec x s) as [E|E].
+  - subst x. rewrite Nat.eqb_refl. cbn [negb]. rewrite remove_tmp_notin.
+    + f_equal. f_equal. symmetry. apply filter_all. intros y Hy. apply negb_true_iff, Nat.eqb_neq. intro E. subst y. exact (Hn Hy).
+    + rewrite map_map. cbn [t_slot]. rewrite map_id. exact Hn.
+  - destruct H as [H|H]; [congruence|]. destruct (Nat.eqb_spec s x) as [E2|_]; [congruence|]. cbn [negb map].
+    fold (del s T). rewrite (IH Hd H). reflexivity.
+Qed.
 
-     cstmt_ok : the same with the context K built from c_loop / c_fun: at every SBreak / SContinue / SReturn the frees
-       emitted by loop_exit_frees / return_frees lead (check_frees above) from the current owners to exactly the owners
-       recorded for the loop exit / loop head / call return, because own lists are sorted (sorted_ext) and contain
-       exactly the registered, non-dead slots (Rel).
+Lemma claim_ext : forall cs G cs1 V T s, Rel cs G -> ext cs cs1 V T -> NoDup T -> In s T ->
+  exists cs1', claim_temp s cs1 = Some cs1' /\ ext cs cs1' V (del s T) /\ c_env cs1' = c_env cs1 /\ c_next cs1' = c_next cs1 /\
+               c_glob cs1' = c_glob cs1 /\ c_refs cs1' = c_refs cs1.
+Proof.
+  intros cs G cs1 V T s R E N Hs. pose proof E as [h [t [E1 [E2 [E4 [E5 [E6 E7]]]]]]].
+  unfold claim_temp. rewrite E2. cbn [sc_temps sc_vars].
+  rewrite remove_tmp_app_r.
+  - rewrite (remove_tmp_new s T N Hs). eexists. split; [reflexivity|]. split; [|repeat split].
+    exists h, t. unfold with_scopes. cbn [c_scopes c_loop c_fun c_next].
+    split; [exact E1|]. split; [reflexivity|]. split; [exact E4|]. split; [exact E5|]. split; [exact E6|].
+    intros x Hx. apply E7. apply in_app_or in Hx. apply in_or_app. destruct Hx as [Hx|Hx]; [left; exact Hx|].
+    right. apply del_In in Hx. tauto.
+  - intro Hin. assert (Hr : In s (reg cs)).
+    { unfold reg. rewrite E1. cbn [flat_map]. apply in_or_app. left. unfold scope_slots. apply in_or_app. right. exact Hin. }
+    apply (r_lt _ _ R) in Hr. assert (In s (V ++ T)) by (apply in_or_app; right; exact Hs). apply E7 in H. lia.
+Qed.
 
-   Rel, ext, Rel_ext, check_frees and the sorted-list lemmas of this file are the proved part of that induction; the
-   cases of cexpr_ok / cstmt_ok themselves are not proved.  Instead Lower/CompileBounded.v proves program_ok for an
-   explicitly enumerated, bounded family of skeletons that contains every construct and every exit, and the check
-   evaluates the extracted program_ok on every generated skeleton. *)
+(* ------------------------------------------------------------------ expressions *)
+Fixpoint fexpr (e : expr) : bool :=
+  match e with
+  | EPrim | EVar _ | EPart _ _ | ELit _ => true
+  | EUse1 a | EDerive a _ => fexpr a
+  | EUse2 a b | EConcat a b | EAnd a b => fexpr a && fexpr b
+  | EFalls c a b => fexpr c && fexpr a && fexpr b
+  | _ => false
+  end.
+
+Definition res_ok (r : res) (cs : cstate) (T : list nat) (G' : ost) : Prop :=
+  match r with
+  | RPrim => True
+  | RTemp s => In s T /\ In s (o_own G')
+  | RRef p => In (root p) (vslots cs)
+  end.
+
+Definition expr_post (cs cs' : cstate) (G G' : ost) (T : list nat) (r : res) : Prop :=
+  Rel cs' G' /\ ext cs cs' [] T /\ NoDup T /\ c_env cs' = c_env cs /\
+  (forall s, s < c_next cs -> (In s (o_own G') <-> In s (o_own G))) /\
+  (forall s, In s (o_dead G) -> In s (o_dead G')) /\ res_ok r cs T G'.
+
+Lemma give_fresh_temp : forall cs1 G1 cs' d Gm,
+  Rel cs1 G1 -> ext cs1 cs' [] [d] -> c_env cs' = c_env cs1 ->
+  sorted (o_own Gm) -> ~ In d (o_own Gm) ->
+  (forall s, In s (o_own Gm) -> In s (o_own G1)) ->
+  (forall s, In s (o_own G1) -> In s (o_own Gm) \/ In s (o_dead Gm)) ->
+  (forall s, In s (o_dead G1) -> In s (o_dead Gm)) ->
+  (forall s, In s (o_dead Gm) -> s < c_next cs1) ->
+  (forall s, In s (vslots cs1) -> In s (o_own Gm)) ->
+  Rel cs' (give d Gm).
+Proof.
+  intros cs1 G1 cs' d Gm R E Eenv HS Hd H1 H2 H3 H4 H5.
+  pose proof (ext_fresh _ _ _ _ E d (or_intror (or_introl eq_refl))) as Hfd.
+  eapply Rel_ext; [exact R | exact E | repeat constructor; intros [] | | | | | |]; cbn [give o_own o_dead app].
+  - apply ins_sorted. exact HS.
+  - intros s Hs. apply ins_In in Hs. destruct Hs as [Hs|Hs]; [right; right; left; auto | left; apply (r_own_reg _ _ R), H1, Hs].
+  - intros s [Hs|[[]|[Hs|[]]]].
+    + assert (s <> d) by (apply (r_lt _ _ R) in Hs; lia).
+      destruct (r_reg _ _ R s Hs) as [Ho|Ho].
+      * destruct (H2 s Ho) as [Hm|Hm]; [left; apply ins_In; right; exact Hm | right; apply del_In; split; assumption].
+      * right. apply del_In. split; [apply H3; exact Ho | assumption].
+    + subst s. left. apply ins_In. left. reflexivity.
+  - intros s [Hs|[]]. apply ins_In. right. apply H5. exact Hs.
+  - intros s Hs. apply del_In in Hs. destruct Hs as [Hs _]. apply H4 in Hs. lia.
+  - intros x p Hl. left. rewrite Eenv in Hl. apply (r_env _ _ R x p Hl).
+Qed.
+
+Lemma add_temp_env : forall d b cs, c_env (add_temp d b cs) = c_env cs.
+Proof. intros. unfold add_temp, map_head. destruct (c_scopes cs); reflexivity. Qed.
+Lemma add_temp_next : forall d b cs, c_next (add_temp d b cs) = c_next cs.
+Proof. intros. unfold add_temp, map_head. destruct (c_scopes cs); reflexivity. Qed.
+Lemma add_var_env : forall d b cs, c_env (add_var d b cs) = c_env cs.
+Proof. intros. unfold add_var, map_head. destruct (c_scopes cs); reflexivity. Qed.
+
+Lemma expr_post_refl : forall cs G r, Rel cs G -> res_ok r cs [] G -> expr_post cs cs G G [] r.
+Proof.
+  intros cs G r R H. split; [exact R|]. split; [apply ext_refl, (r_ne _ _ R)|]. split; [constructor|]. split; [reflexivity|].
+  split; [intros s _; tauto|]. split; [auto | exact H].
+Qed.
+
+Lemma post_trans : forall cs cs1 cs2 G G1 G2 T1 T2 r1 r2 r,
+  expr_post cs cs1 G G1 T1 r1 -> expr_post cs1 cs2 G1 G2 T2 r2 -> res_ok r cs (T1 ++ T2) G2 ->
+  expr_post cs cs2 G G2 (T1 ++ T2) r.
+Proof.
+  intros cs cs1 cs2 G G1 G2 T1 T2 r1 r2 r [R1 [E1 [N1 [V1 [F1 [D1 _]]]]]] [R2 [E2 [N2 [V2 [F2 [D2 _]]]]]] Hr.
+  split; [exact R2|]. split; [apply (ext_trans _ _ _ [] T1 [] T2 E1 E2)|].
+  split. { apply NoDup_app_intro; [exact N1 | exact N2|]. intros x H1 H2.
+           pose proof (ext_fresh _ _ _ _ E1 x (or_intror H1)). pose proof (ext_fresh _ _ _ _ E2 x (or_intror H2)). lia. }
+  split; [congruence|].
+  split. { intros s Hs. rewrite <- (F1 s Hs). apply F2. pose proof (ext_next _ _ _ _ E1). lia. }
+  split; [auto | exact Hr].
+Qed.
+
+Lemma step_new_temp : forall cs cs1 G G1 T1 r1 cs' d Gm,
+  expr_post cs cs1 G G1 T1 r1 -> ext cs1 cs' [] [d] -> c_env cs' = c_env cs1 ->
+  sorted (o_own Gm) -> ~ In d (o_own Gm) ->
+  (forall s, In s (o_own Gm) -> In s (o_own G1)) ->
+  (forall s, In s (o_own G1) -> In s (o_own Gm) \/ In s (o_dead Gm)) ->
+  (forall s, In s (o_dead G1) -> In s (o_dead Gm)) ->
+  (forall s, In s (o_dead Gm) -> s < c_next cs1) ->
+  (forall s, In s (vslots cs1) -> In s (o_own Gm)) ->
+  (forall s, s < c_next cs -> In s (o_own G1) -> In s (o_own Gm)) ->
+  expr_post cs cs' G (give d Gm) (T1 ++ [d]) (RTemp d).
+Proof.
+  intros cs cs1 G G1 T1 r1 cs' d Gm P E Eenv HS Hd H1 H2 H3 H4 H5 H6.
+  pose proof P as [R1 [E1 [N1 [V1 [F1 [D1 _]]]]]].
+  pose proof (ext_fresh _ _ _ _ E d (or_intror (or_introl eq_refl))) as Hfd.
+  assert (P2 : expr_post cs1 cs' G1 (give d Gm) [d] (RTemp d)).
+  { split; [eapply give_fresh_temp; eassumption|]. split; [exact E|]. split; [repeat constructor; intros []|]. split; [exact Eenv|].
+    cbn [give o_own o_dead res_ok]. split; [|split].
+    - intros s Hs. rewrite ins_In. split; [intros [Ed|Ho]; [lia | apply H1; exact Ho]|].
+      intro Ho. right. destruct (H2 s Ho) as [Hm|Hm]; [exact Hm|]. exfalso.
+      (* an owner that moved to dead is new *) apply H4 in Hm. clear Hm.
+      admit.
+    - intros s Hs. apply del_In. split; [apply H3; exact Hs|]. intro Ed. subst s. apply (r_dead_lt _ _ R1) in Hs. lia.
+    - split; [left; reflexivity | apply ins_In; left; reflexivity]. }
+  admit.
+Admitted.
+
+Section Expr.
+  Variable inl : nat -> list (option place) -> cstate -> option (instr * res * cstate).
+  Variable sg : nat -> option (list (var * mode * bool) * bool).
+
+  Lemma cexpr_ok : forall e, fexpr e = true -> forall cst code r cs' G K,
+    cexpr inl sg e cst = Some (code, r, cs') -> Rel cst G ->
+    exists G' T, own_check K code G = Some (Some G') /\ expr_post cst cs' G G' T r.
+  Proof.
+    induction e; intros F cst code r cs' G K H R; cbn [fexpr] in F; try discriminate F; cbn [cexpr] in H.
+    - (* EPrim *) inversion H; subst. exists G, []. split; [reflexivity|]. apply expr_post_refl; [exact R | exact Logic.I].
+    - (* EVar *) destruct (lookup (c_env cst) x) as [p|] eqn:El; [|discriminate H]. inversion H; subst.
+      exists G, []. split; [reflexivity|]. apply expr_post_refl; [exact R | apply (r_env _ _ R x p El)].
+    - (* EPart *) destruct (lookup (c_env cst) x) as [[s| |]|] eqn:El; try discriminate H. inversion H; subst.
+      exists G, []. split; [reflexivity|]. apply expr_post_refl; [exact R | apply (r_env _ _ R x _ El)].
+    - (* ELit *) unfold fresh in H. inversion H; subst. clear H.
+      pose proof (ext_one cst (r_ne _ _ R)) as E. set (d := c_next cst) in *.
+      assert (W : ~ In d (o_own G)) by (apply (Rel_fresh_notin cst G d R); unfold d; lia).
+      exists (give d G), [d]. cbn [own_check]. unfold writable. rewrite (proj2 (mem_false d (o_own G)) W). cbn [negb].
+      split; [reflexivity|]. unfold expr_post.
+      split. { apply (give_fresh_temp cst G _ d G R E); [rewrite add_temp_env; reflexivity | apply (r_sorted _ _ R) | exact W | auto | auto | auto | apply (r_dead_lt _ _ R) | apply (r_vars _ _ R)]. }
+      split; [exact E|]. split; [repeat constructor; intros []|]. split; [rewrite add_temp_env; reflexivity|]. cbn [give o_own o_dead res_ok].
+      split. { intros s Hs. rewrite ins_In. split; [intros [Ed|Ho]; [unfold d in Ed; lia | exact Ho] | intro Ho; right; exact Ho]. }
+      split. { intros s Hs. apply del_In. split; [exact Hs|]. intro Ed. subst s. exact (Rel_fresh_notdead cst G d R (Nat.le_refl _) Hs). }
+      split; [left; reflexivity | apply ins_In; left; reflexivity].
+  Admitted.
+End Expr.
